@@ -1059,7 +1059,13 @@ class PDFType1Font(PDFSimpleFont):
             width_list = list_value(spec.get("Widths", [0] * 256))
             widths = {i + firstchar: resolve1(w) for (i, w) in enumerate(width_list)}
         PDFSimpleFont.__init__(self, descriptor, widths, spec)
-        if "Encoding" not in spec and "FontFile" in descriptor:
+        encoding = resolve1(spec.get("Encoding"))
+        if isinstance(encoding, dict):
+            # Differences without a BaseEncoding modify the font's own encoding.
+            implicit_base = "BaseEncoding" not in encoding
+        else:
+            implicit_base = encoding is None
+        if implicit_base and "FontFile" in descriptor:
             # try to recover the missing encoding info from the font file.
             self.fontfile = stream_value(descriptor.get("FontFile"))
             data = self.fontfile.get_data()
@@ -1067,6 +1073,11 @@ class PDFType1Font(PDFSimpleFont):
                 data = data[: int_value(self.fontfile["Length1"])]
             parser = Type1FontHeaderParser(BytesIO(data))
             self.cid2unicode = parser.get_encoding()
+            if isinstance(encoding, dict):
+                diff = list_value(encoding.get("Differences", []))
+                self.cid2unicode = EncodingDB.get_encoding(
+                    "", diff, base=self.cid2unicode
+                )
 
     def __repr__(self) -> str:
         return "<PDFType1Font: basefont=%r>" % self.basefont
